@@ -731,6 +731,7 @@ const SIG_ANCESTOR: &str = "c12:move-to-ancestor-parent-locked";
 const SIG_MIXED_C03: &str = "c03:mixed-set-cdata-drops-children";
 const SIG_MIXED_C04: &str = "c04:mixed-set-cdata-drops-children";
 const SIG_MIXED_C05: &str = "c05:mixed-set-cdata-drops-children";
+const SIG_LATE_SN: &str = "c04:short-name-added-later-not-indexed";
 // families found by this scenario (NOT in the task's list; proposed signatures, see the report)
 const SIG_RMSELF: &str = "c12:remove-self-deadlock";
 const SIG_DANGLING_RENAME: &str = "c06:rename-rewrites-dangling-prefix";
@@ -793,6 +794,9 @@ pub struct Checker {
     alien_type: bool,
     /// how often the kind-specific oracles were actually evaluated (statistics)
     pub counts: BTreeMap<&'static str, u64>,
+    /// a SHORT-NAME was created with `create_sub_element` in an element that existed without one (its type has no name in the
+    /// version it was created in): known finding c04:short-name-added-later-not-indexed; the path index stays behind from here on
+    late_short_name: bool,
 }
 
 fn walk(e: &Element, depth: usize, parent: Option<usize>, out: &mut Vec<(usize, Element, Option<usize>)>) {
@@ -910,6 +914,7 @@ impl Checker {
             files_sticky: None,
             alien_type: false,
             counts: BTreeMap::new(),
+            late_short_name: false,
         }
     }
 
@@ -1562,6 +1567,9 @@ impl Checker {
         } else {
             vec![]
         };
+        let late_sn_trigger = verb == "create"
+            && words.get(2).and_then(|n| n.parse::<usize>().ok()).is_some_and(|n| n == ElementName::ShortName as usize)
+            && handles.first().is_some_and(|p| p.element_type().is_named());
         let sort_pre: Option<SortPre> = if (verb == "sort" || verb == "sortm") && self.on("C14") {
             let top = if verb == "sort" { handles.first().cloned() } else { self.w.h_model(words.get(1).unwrap_or(&"")).map(|m| m.1.root_element()) };
             top.map(|t| SortPre {
@@ -1688,6 +1696,9 @@ impl Checker {
         if !self.stop_c456 {
             let container_op = ok && (verb == "move" || verb == "copy") && subj.is_some() && !subj_ident;
             let mixed_hit = ok && !mixed_kids.is_empty();
+            if ok && late_sn_trigger {
+                self.late_short_name = true;
+            }
             if self.on("C04") || container_op || mixed_hit {
                 let mut v = vec![];
                 self.c04(&snaps, &mut v);
@@ -1698,6 +1709,9 @@ impl Checker {
                 } else if !v.is_empty() && mixed_hit {
                     let first = v.remove(0);
                     v = vec![Failure::known("C04", SIG_MIXED_C04, format!("after `{req}` on a MIXED element with sub-elements: {}", first.msg))];
+                } else if !v.is_empty() && self.late_short_name {
+                    let first = v.remove(0);
+                    v = vec![Failure::known("C04", SIG_LATE_SN, format!("after `{req}` (a SHORT-NAME was created later in an element that had none): {}", first.msg))];
                 }
                 if self.on("C04") {
                     out.extend(v);
